@@ -100,10 +100,18 @@ func newClient(s *Swarm, remoteAddr Addr, netConn net.Conn) (*Conn, error) {
 		return nil, errors.New("pubkey not set after connection")
 	}
 
+	laddr := netConn.LocalAddr().(*net.TCPAddr)
+	lip, _ := netip.AddrFromSlice(laddr.IP)
 	c := &Conn{
 		swarm:      s,
 		remoteAddr: remoteAddr,
-		shutdown:   make(chan struct{}),
+		// messages received over a dialled connection are addressed to this end of it
+		localAddr: Addr{
+			Fingerprint: ssh.FingerprintSHA256(s.signer.PublicKey()),
+			IP:          lip,
+			Port:        uint16(laddr.Port),
+		},
+		shutdown: make(chan struct{}),
 
 		newChanReqs: newChans,
 		reqs:        reqs,
